@@ -202,7 +202,10 @@ def judge(case, m):
         m.note("design-raised:" + type(e).__name__)
         return
     atoms = atoms_of(case, meta)
-    cat_cols = sorted({a.col for a in atoms.values() if a.kind == "cat" and meta[a.col]["kind"] != "ocat"})
+    numeric_use = {v for a in atoms.values() if a.kind != "cat" for v in a.vars}
+    # (a column that is ALSO used numerically, e.g. C(k) + binary(k), is not planted: substituting a seen
+    # level would change the numeric term as well, and the statement says nothing about that)
+    cat_cols = sorted({a.col for a in atoms.values() if a.kind == "cat" and meta[a.col]["kind"] != "ocat"} - numeric_use)
     if not cat_cols:
         m.note("no-categorical-variable")
         return
@@ -220,8 +223,8 @@ def judge(case, m):
     def involves(comps):
         for c in comps:
             at = atoms.get(str(c.name))
-            if at is not None and col in at.vars:
-                return True
+            if at is not None and col in at.vars and at.kind == "cat":
+                return True  # (a numeric use of the column, e.g. binary(k), has no levels to be unseen)
             if at is None and str(c.name) == col:
                 return True
         return False
